@@ -43,6 +43,12 @@ def strat_case(draw, tier):
         case["copula"] = draw(copula_spec())
     if ctor in ("uniform", "geometric"):
         case["p"] = draw(st.sampled_from([0.999, 0.9999, 0.99999]))
+    # weakly damped jumps (the truncation bounds lie tens of units from the origin; the geometric axis keeps its size)
+    if ctor == "geometric" and draw(st.integers(0, 3)) == 0:
+        margins[0] = {"family": "cgmy", "exp": margins[0]["exp"],
+                      "params": {"c": draw(_f(0.1, 2.0)), "g": draw(_f(0.1, 0.3)), "m": draw(_f(0.1, 0.3)),
+                                 "y": draw(st.sampled_from([-0.5, 0.3, 0.7]))}}
+        case["heavy_tails"] = True
     if ctor == "uniform-fixed":
         case["n"] = draw(st.integers(2, 60))
     if ctor in ("geometric", "geometric-bounds"):
@@ -75,14 +81,15 @@ def _h(case):
     return float(f"{case['h_rel'] * sc:.5g}")
 
 
-def _tail_ratio(spec, lo, hi, h, side):
+def _tail_ratio(spec, lo, hi, h, side, outside=False):
+    """share of the one-sided mass beyond h/2 that lies inside the bound (outside=True: beyond the bound)"""
     nu = build_model(spec, force_exp=False).levy_triplet.nu
     hints = quad_hints(spec)
     if side == "right":
-        part, _, _ = nu_integral(nu, h / 2, hi, 0, hints)
+        part, _, _ = nu_integral(nu, hi, INF, 0, hints) if outside else nu_integral(nu, h / 2, hi, 0, hints)
         tot, _, _ = nu_integral(nu, h / 2, INF, 0, hints)
     else:
-        part, _, _ = nu_integral(nu, lo, -h / 2, 0, hints)
+        part, _, _ = nu_integral(nu, -INF, lo, 0, hints) if outside else nu_integral(nu, lo, -h / 2, 0, hints)
         tot, _, _ = nu_integral(nu, -INF, -h / 2, 0, hints)
     return part / tot
 
@@ -217,6 +224,14 @@ def body(case):
         if abs(min(ratios_r) - p) > 1e-6 or abs(min(ratios_l) - p) > 1e-6:
             out.append(Violation(f"{tag}/construct/tail-probability",
                                  f"requested {p}; right ratios {ratios_r}; left ratios {ratios_l}; bounds {l, r}"))
+        else:
+            # the same promise seen from the tail: the mass left outside is (1 - p) of the one-sided mass, in relative terms
+            out_r = max(_tail_ratio(m, l, r, h, "right", outside=True) for m in case["margins"])
+            out_l = max(_tail_ratio(m, l, r, h, "left", outside=True) for m in case["margins"])
+            if abs(out_r - (1 - p)) > 1e-4 * (1 - p) or abs(out_l - (1 - p)) > 1e-4 * (1 - p):
+                out.append(Violation(f"{tag}/construct/tail-probability/mass-left-outside",
+                                     f"requested 1 - p = {1 - p!r}; outside on the right {out_r!r}, on the left {out_l!r}; "
+                                     f"bounds {l, r}; margins {case['margins']}"))
     if ctor == "probstep" and not root_failures:
         spec = case["margins"][0]
         nu = build_model(spec, force_exp=False).levy_triplet.nu
@@ -331,7 +346,7 @@ def body(case):
 
 def classify(case):
     labels = [case["ctor"], f"d={case['d']}", f"refines={case['refines']}"] + \
-             sorted({branch_of(m) for m in case["margins"]})
+             sorted({branch_of(m) for m in case["margins"]}) + (["weakly-damped-margin"] if case.get("heavy_tails") else [])
     nt = case["refines"] >= 1 or case["ctor"] != "uniform" or case["d"] >= 2
     return labels, nt
 
